@@ -5,6 +5,7 @@ package interp
 
 import (
 	"fmt"
+	"os"
 	"go/token"
 	"go/types"
 	"sort"
@@ -34,6 +35,7 @@ type Config struct {
 	Tier      int  // 0 quick, 1 thorough (returned by vxTier())
 	Preempt   int  // pre-emption budget (mode X); 0 = run-to-block
 	PermuteMaps bool
+	SelectFork  bool // fork over the ready cases of a select (otherwise: first ready case in source order)
 	Known     map[string]bool // known-finding ids that may be excused
 	Deadline  time.Time
 	StopAtFirstViolation bool
@@ -272,6 +274,23 @@ func NewExplorer(cfg *Config, entry *ssa.Function) *Explorer {
 func (e *Explorer) Run() *Stats {
 	e.stack = []*PathSpec{{}}
 	var wg sync.WaitGroup
+	quit := make(chan struct{})
+	if os.Getenv("VX_PROGRESS") != "" {
+		go func() {
+			t0 := time.Now()
+			for {
+				select {
+				case <-quit:
+					return
+				case <-time.After(5 * time.Second):
+					e.mu.Lock()
+					fmt.Fprintf(os.Stderr, "[%4.0fs] paths=%d discarded=%d pending=%d busy=%d queries=%d\n", time.Since(t0).Seconds(), e.stats.Paths, e.stats.Discarded, len(e.stack), e.busy, atomic.LoadInt64(&e.stats.Queries))
+					e.mu.Unlock()
+				}
+			}
+		}()
+	}
+	defer close(quit)
 	for w := 0; w < e.cfg.Workers; w++ {
 		wg.Add(1)
 		go func(w int) {
